@@ -31,7 +31,7 @@ def core(name, fn, tier, parts, pv, n, mask, stages, timeout):
     return Unit(name, ["C02", "C01", "C11"], "lib/res0.c", enforce=fn, kind="B", bound=core_bound(parts, pv, n, stages), assumed=CORE_ASSUMED,
                 harness="h_res_core.c", entry="h_" + name, defines=d, tier=tier,
                 unwindset=loops + ["build_look.0:9", "build_look.1:9", "build_look.2:9", "build_look.3:9", "ilog_.0:9", "h_%s.0:3" % name],
-                reach=3, timeout=timeout, note=NOTE2 if res2 else NOTE01)
+                reach=3, timeout=timeout, shards=12, note=NOTE2 if res2 else NOTE01)
 UNITS += [
   core("res_01inverse_b", "_01inverse", "quick", 2, 2, 2, 3, 2, 900),
   core("res_res2_inverse_b", "res2_inverse", "quick", 2, 2, 2, 3, 2, 900),
